@@ -300,6 +300,10 @@ RULE = ("every sequence (length <= 3; <= 4 on the in-memory stores in the thorou
         "SqliteWorkflowStore (DB file); retained handler set checked after every step against the retention rule (both readings of "
         "'most recently completed' admitted), delete counts compared, and after each sequence all 432 filter combinations (72 on "
         "SQLite beyond length 2) are queried and compared with a dict reference; non-trivial = sequences of length >= 2")
+from vmc.tables import _ROUND6 as _R6  # noqa: E402
+
+RULE += _R6["C24"]
+
 
 
 def run(tier: str, seed: int) -> Any:
